@@ -15,6 +15,7 @@ with emmansun/gmsm on every correspondence run (see checks/C04.json, trusted bas
 import Gotlcp.Lemmas.KeyScheduleRecord
 import Gotlcp.Lemmas.KeyScheduleWrite
 import Gotlcp.Tie.PaddingDtlcp
+import Gotlcp.Tie.Seq
 import Gotlcp.Generated.Facts
 
 set_option linter.unusedSimpArgs false
@@ -702,5 +703,52 @@ example : Src.dtlcp.extractPadding ([1#8, 2#8, 3#8] ++ (List.replicate 253 252#8
 example : (Src.dtlcp.extractPadding ([9#8] ++ List.replicate 18 17#8)).toOption = some (18, 255#8) := by decide
 example : (Src.dtlcp.extractPadding ([9#8] ++ (List.replicate 18 17#8).set 0 0xaa#8)).toOption = some (1, 0#8) := by decide
 
+
+/-! ### sequence numbers of the SOURCE TEXT
+
+tlcp `halfConn.incSeq` and dtlcp `Conn.setWriteSeq` are regenerated from the Go source on every run
+(`Gotlcp.Src`); `Gotlcp.Tie.Seq` proves them equal to the models used above for every value. -/
+
+/-- The translated `incSeq` increments the 8-byte sequence number exactly as the model does, for
+every value; the only failure is the "sequence number wraparound" panic at 2^64 − 1 (`none`), so a
+record sequence number (= GCM nonce, MAC input) is never reused under one key. -/
+theorem C04_src_incSeq (hc : Src.tlcp.halfConn) (b0 b1 b2 b3 b4 b5 b6 b7 : BitVec 8)
+    (h : hc.seq = [b0, b1, b2, b3, b4, b5, b6, b7]) :
+    Tie.Seq.incResult (Src.tlcp.halfConn.incSeq hc) = incSeq (Tie.Seq.toBytes hc.seq) :=
+  (Tie.Seq.tie_incSeq hc b0 b1 b2 b3 b4 b5 b6 b7 h).1
+
+/-- The translated `setWriteSeq` loads `epoch ‖ 48-bit sequence number` (big-endian) into the
+8 bytes that `encrypt` MACs / uses as the GCM nonce, and cannot panic. -/
+theorem C04_src_setWriteSeq (c : Src.dtlcp.Conn) (h : c.out.seq.length = 8) :
+    ∃ c', Src.dtlcp.Conn.setWriteSeq c = .ok c'
+      ∧ Tie.Seq.toBytes c'.out.seq = be 2 c.writeEpoch.toNat ++ be 6 c.writeSeq.toNat := by
+  obtain ⟨c', h1, h2, _⟩ := Tie.Seq.tie_setWriteSeq c h
+  exact ⟨c', h1, h2⟩
+
+/-- … hence two different (epoch, sequence number < 2^48) pairs give different nonce bytes in the
+translated source as well -/
+theorem C04_src_nonce_injective (c d : Src.dtlcp.Conn) (hc : c.out.seq.length = 8) (hd : d.out.seq.length = 8)
+    (sc : c.writeSeq.toNat < 2 ^ 48) (sd : d.writeSeq.toNat < 2 ^ 48)
+    (hne : (c.writeEpoch, c.writeSeq) ≠ (d.writeEpoch, d.writeSeq))
+    (c' d' : Src.dtlcp.Conn) (ec : Src.dtlcp.Conn.setWriteSeq c = .ok c') (ed : Src.dtlcp.Conn.setWriteSeq d = .ok d') :
+    c'.out.seq ≠ d'.out.seq := by
+  obtain ⟨c2, h1, h2⟩ := C04_src_setWriteSeq c hc
+  obtain ⟨d2, g1, g2⟩ := C04_src_setWriteSeq d hd
+  rw [ec] at h1; rw [ed] at g1
+  cases h1; cases g1
+  intro e
+  have e' : be 2 c.writeEpoch.toNat ++ be 6 c.writeSeq.toNat = be 2 d.writeEpoch.toNat ++ be 6 d.writeSeq.toNat := by
+    rw [← h2, ← g2, e]
+  have hl : (be 2 c.writeEpoch.toNat).length = (be 2 d.writeEpoch.toNat).length := by rw [length_be, length_be]
+  obtain ⟨e1, e2⟩ := List.append_inj e' hl
+  have he := be_inj 2 _ _ (by have := c.writeEpoch.isLt; simpa using this) (by have := d.writeEpoch.isLt; simpa using this) e1
+  have hs := be_inj 6 _ _ (by simpa using sc) (by simpa using sd) e2
+  apply hne
+  rw [Prod.mk.injEq]
+  exact ⟨BitVec.eq_of_toNat_eq he, BitVec.eq_of_toNat_eq hs⟩
+
+example : Tie.Seq.incResult (Src.tlcp.halfConn.incSeq { seq := [0#8, 0#8, 0#8, 0#8, 0#8, 0#8, 1#8, 255#8] })
+    = some [0, 0, 0, 0, 0, 0, 2, 0] := by decide
+example : Tie.Seq.incResult (Src.tlcp.halfConn.incSeq { seq := List.replicate 8 255#8 }) = none := by decide
 
 end Gotlcp.Props.C04
